@@ -10,7 +10,7 @@ from sa.model import AnalysisError, ClassInfo, FuncInfo, Program, dotted, norm, 
 from sa.report import Context, Rule
 from sa.rules.common import FSH, MAIN, PM, RULE_PLUGIN
 from sa.state import method_closure, self_effects, static_writes
-from sa.triage import C13_FIELDS, C13_STATICS
+from sa.triage import C13_FIELDS, C13_MANAGER_FIELDS, C13_STATICS
 from sa.util import func_key, guards_of, returns_of, site_for, where
 
 EXPLANATION = (
@@ -212,6 +212,62 @@ def unreset_fields(prog: Program, cls: ClassInfo, run_roots: List[str], kill_roo
     return out
 
 
+IN_PLACE_METHODS = {"append", "extend", "insert", "pop", "remove", "clear", "sort", "reverse", "update", "setdefault", "popitem", "add", "discard"}
+
+
+def _aliasing_resets(prog: Program, cls: ClassInfo, stop: ClassInfo):
+    """(field, source field, node, func) for ``self.F = self.G`` in the closure of starting_new_file"""
+    for func in method_closure(prog, cls, ["starting_new_file"], stop_at=stop):
+        if not func.params:
+            continue
+        me = func.params[0]
+        for node in walk_local(func.node):
+            if not isinstance(node, (ast.Assign, ast.AnnAssign)) or getattr(node, "value", None) is None:
+                continue
+            value = node.value
+            if not (isinstance(value, ast.Attribute) and isinstance(value.value, ast.Name) and value.value.id == me):
+                continue
+            targets = node.targets if isinstance(node, ast.Assign) else [node.target]
+            for target in targets:
+                if isinstance(target, ast.Attribute) and isinstance(target.value, ast.Name) and target.value.id == me and target.attr != value.attr:
+                    typ = prog.infer(func, value)
+                    if typ is None or typ[0] in ("list", "dict", "set", "cls"):
+                        yield target.attr, value.attr, node, func
+
+
+def _mutated_in_place(prog: Program, cls: ClassInfo, stop: ClassInfo, field: str):
+    for func in method_closure(prog, cls, ["next_token", "next_line", "completed_file"], stop_at=stop):
+        if not func.params:
+            continue
+        me = func.params[0]
+
+        def is_field(expr: ast.AST) -> bool:
+            return isinstance(expr, ast.Attribute) and expr.attr == field and isinstance(expr.value, ast.Name) and expr.value.id == me
+
+        for node in walk_local(func.node):
+            targets = []
+            if isinstance(node, ast.Assign):
+                targets = list(node.targets)
+            elif isinstance(node, ast.AugAssign):
+                targets = [node.target]
+            elif isinstance(node, ast.Delete):
+                targets = list(node.targets)
+            for target in targets:
+                base = target
+                element = False
+                while isinstance(base, ast.Subscript):
+                    base, element = base.value, True
+                if element and is_field(base):
+                    return func, node
+            if isinstance(node, ast.Call) and isinstance(node.func, ast.Attribute) and node.func.attr in IN_PLACE_METHODS:
+                base = node.func.value
+                while isinstance(base, ast.Subscript):
+                    base = base.value
+                if is_field(base):
+                    return func, node
+    return None
+
+
 def r13b(ctx: Context) -> None:
     prog = ctx.prog
     rule = ctx.rule("R13b", "per-file fields of every rule (and its helpers) are reset by starting_new_file", 40)
@@ -234,6 +290,16 @@ def r13b(ctx: Context) -> None:
                 f"field '{key}'{via} is written while a file is processed ('{norm(node)[:80]}') but starting_new_file neither assigns, clears nor replaces it: "
                 "its value after one file is the starting value for the next",
             )
+        # a reset that binds the field to another field's container is no reset: what the file adds
+        # to it survives in the other field
+        for alias_field, source_field, node, func in _aliasing_resets(prog, cls, base):
+            key = f"{cls.name}.{alias_field} [alias]"
+            mutation = _mutated_in_place(prog, cls, base, alias_field)
+            if mutation is None:
+                rule.ok(key, f"bound to '{source_field}' but never changed in place")
+            else:
+                reported += 1
+                rule.fail(key, where(func, node), f"starting_new_file resets '{alias_field}' by binding it to the same object as '{source_field}' ('{norm(node)[:80]}'), and {mutation[0].short} changes it in place ('{norm(mutation[1])[:60]}'): what one file adds is still there when the next file starts")
         if not reported:
             rule.ok(f"{cls.name}", "every run-time field is reset at the start of a file")
 
@@ -249,6 +315,26 @@ def r13c(ctx: Context) -> None:
             rule.ok(key, "assigned unconditionally")
         else:
             rule.fail(key, where(starting), f"'{name}' survives from the previous file")
+    # every field of the manager that the per-file entry points write is reset by starting_new_file
+    per_file_roots = sorted({
+        site.node.func.attr
+        for func in list(prog.cls(FSH).methods.values()) + list(prog.cls(PSC).methods.values())
+        for site in prog.sites_in(func)
+        if isinstance(site.node.func, ast.Attribute) and any(t.cls is not None and t.cls.qualname == PM for t in site.targets)
+        and site.node.func.attr not in ("starting_new_file",)
+    })
+    if len(per_file_roots) < 4:
+        raise AnalysisError(f"only {per_file_roots} found as per-file entry points of the plugin manager")
+    manager_leftovers = unreset_fields(prog, prog.cls(PM), per_file_roots, ["starting_new_file"], None)
+    for owner, name, func, node in manager_leftovers:
+        if owner.qualname != PM:
+            continue
+        key = f"PluginManager.{name}"
+        if key in C13_MANAGER_FIELDS:
+            rule.ok(key, "named exception: " + C13_MANAGER_FIELDS[key])
+        else:
+            rule.fail(key, where(func, node), f"the plugin manager's field '{name}' is written by {func.short} while a file is processed but not re-assigned on every path through starting_new_file: a file that does not reach {func.short} sees the previous file's value")
+    rule.note(f"per-file entry points of the manager: {per_file_roots}")
     rets = returns_of(starting)
     fresh = False
     for ret in rets:
